@@ -1,8 +1,216 @@
-//! Implementation side of driver op `obj` (see /verif/CONTRIBUTING.md).
-#![allow(unused_imports, dead_code)]
+//! Implementation side of driver op `obj` (property C07, see lean/RsjModel/Object.lean).
+//!
+//! `obj <prefix object expression> ? <probe names...>`
+//!   expr  := `{` field* `}` | `+` expr expr | `rm` name expr
+//!   field := name:vis:plus:body   vis = d|h|v, plus = 0|1,
+//!            body = l<int> | s<name> (self.name) | S<name> (self['name']) | u<name> (super.name)
+//!                 | U<name> (super['name']) | i<name> ('name' in super)
+//!
+//! The expression is rendered as Jsonnet source and observed through the real
+//! evaluator only: std.objectFieldsAll / objectFields / objectHas / objectHasAll /
+//! length / `in`, every probe field's value (or error kind) and the manifested JSON.
+use crate::ops_eval::{eval_source, EvalOpts};
 use crate::util::*;
 
-/// `obj <args...>`: one canonical answer line, or `None` for a malformed request.
-pub fn handle(_args: &[&str]) -> Option<String> {
-    None
+enum OExpr {
+    Layer(Vec<(String, char, bool, String)>),
+    Plus(Box<OExpr>, Box<OExpr>),
+    Rm(String, Box<OExpr>),
+}
+
+fn is_name(s: &str) -> bool {
+    !s.is_empty() && s.chars().all(|c| c.is_ascii_alphanumeric() || c == '_')
+}
+
+fn parse_body(s: &str) -> Option<String> {
+    let (k, r) = s.split_at(1);
+    match k {
+        "l" => {
+            let n: i64 = r.parse().ok()?;
+            Some(format!("({})", n))
+        }
+        "s" if is_name(r) => Some(format!("self.{}", r)),
+        "S" if is_name(r) => Some(format!("self['{}']", r)),
+        "u" if is_name(r) => Some(format!("super.{}", r)),
+        "U" if is_name(r) => Some(format!("super['{}']", r)),
+        "i" if is_name(r) => Some(format!("(if '{}' in super then 1 else 0)", r)),
+        _ => None,
+    }
+}
+
+fn parse<'a>(toks: &'a [&'a str]) -> Option<(OExpr, &'a [&'a str])> {
+    let (t, rest) = toks.split_first()?;
+    match *t {
+        "{" => {
+            let mut fields = Vec::new();
+            let mut rest = rest;
+            loop {
+                let (t, r) = rest.split_first()?;
+                rest = r;
+                if *t == "}" {
+                    return Some((OExpr::Layer(fields), rest));
+                }
+                let p: Vec<&str> = t.split(':').collect();
+                if p.len() != 4 || !is_name(p[0]) || p[3].is_empty() {
+                    return None;
+                }
+                let vis = match p[1] {
+                    "d" => 'd',
+                    "h" => 'h',
+                    "v" => 'v',
+                    _ => return None,
+                };
+                let plus = match p[2] {
+                    "0" => false,
+                    "1" => true,
+                    _ => return None,
+                };
+                fields.push((p[0].to_string(), vis, plus, parse_body(p[3])?));
+            }
+        }
+        "+" => {
+            let (a, r1) = parse(rest)?;
+            let (b, r2) = parse(r1)?;
+            Some((OExpr::Plus(Box::new(a), Box::new(b)), r2))
+        }
+        "rm" => {
+            let (k, r0) = rest.split_first()?;
+            if !is_name(k) {
+                return None;
+            }
+            let (a, r1) = parse(r0)?;
+            Some((OExpr::Rm(k.to_string(), Box::new(a)), r1))
+        }
+        _ => None,
+    }
+}
+
+fn render(e: &OExpr, out: &mut String) {
+    match e {
+        OExpr::Layer(fields) => {
+            out.push('{');
+            for (n, vis, plus, body) in fields {
+                out.push_str(&format!(
+                    " '{}'{}{} {},",
+                    n,
+                    if *plus { "+" } else { "" },
+                    match vis {
+                        'd' => ":",
+                        'h' => "::",
+                        _ => ":::",
+                    },
+                    body
+                ));
+            }
+            out.push_str(" }");
+        }
+        OExpr::Plus(a, b) => {
+            out.push('(');
+            render(a, out);
+            out.push_str(" + ");
+            render(b, out);
+            out.push(')');
+        }
+        OExpr::Rm(k, a) => {
+            out.push_str("std.objectRemoveKey(");
+            render(a, out);
+            out.push_str(&format!(", '{}')", k));
+        }
+    }
+}
+
+fn opts(mode: &str) -> EvalOpts {
+    let mut o = EvalOpts::parse(&[]).unwrap();
+    o.mode = mode.into();
+    o
+}
+
+/// `ok <hex>` -> Ok(text); `err eval Kind <hexdetail>` -> Err(short kind)
+fn short(res: &str) -> Result<String, String> {
+    let w: Vec<&str> = res.split(' ').collect();
+    if w[0] == "ok" && w.len() >= 2 {
+        return Ok(String::from_utf8_lossy(&hex_dec(w[1]).unwrap_or_default()).into_owned());
+    }
+    if w[0] == "err" && w.len() >= 3 {
+        let detail = w
+            .get(3)
+            .and_then(|h| hex_dec(h))
+            .map(|b| String::from_utf8_lossy(&b).into_owned())
+            .unwrap_or_default();
+        return Err(match w[2] {
+            "UnknownObjectField" => format!("Eunk.{}", detail),
+            "SuperWithoutSuperObject" => "Enosuper".into(),
+            "InfiniteRecursion" => "Einf".into(),
+            k => format!("E{}:{}", w[1], k),
+        });
+    }
+    Err(format!("E?{}", res.replace(' ', "_")))
+}
+
+/// Flat JSON object with integer values -> `{a:1,b:2}`
+fn canon_json(s: &str) -> String {
+    s.chars()
+        .filter(|c| !c.is_whitespace() && *c != '"')
+        .collect()
+}
+
+pub fn handle(args: &[&str]) -> Option<String> {
+    let (e, rest) = parse(args)?;
+    let (q, probes) = rest.split_first()?;
+    if *q != "?" || !probes.iter().all(|p| is_name(p)) {
+        return None;
+    }
+    // Every probe name is made known to the string interner first: for a name that occurs
+    // nowhere in the program, `super['x']` / std.objectHasEx take a "not interned" shortcut
+    // (UnknownObjectField before the SuperWithoutSuperObject test), which is outside the
+    // layer algebra modelled here.
+    let mut src = String::from("local __intern = {");
+    for p in probes.iter() {
+        src.push_str(&format!(" {}: 0,", p));
+    }
+    src.push_str(" }; ");
+    render(&e, &mut src);
+
+    // 1. the existence / visibility views, computed by the evaluator itself
+    let plist: Vec<String> = probes.iter().map(|p| format!("'{}'", p)).collect();
+    let views_src = format!(
+        "local o = {};\n\
+         local ps = [{}];\n\
+         local b(x) = if x then '1' else '0';\n\
+         local vis(n) = if !std.objectHas(o, n) then 'h' else if std.objectHas({{ [n]:: 0 }} + o, n) then 'v' else 'd';\n\
+         'F=' + std.join(',', [n + '/' + vis(n) for n in std.objectFieldsAll(o)])\n\
+         + '|V=' + std.join(',', std.objectFields(o))\n\
+         + '|L=' + std.length(o)\n\
+         + '|P=' + std.join(',', [n + ':' + b(std.objectHasAll(o, n)) + b(std.objectHas(o, n)) + b(n in o) for n in ps])",
+        src,
+        plist.join(",")
+    );
+    let views = match short(&eval_source(views_src.as_bytes(), &opts("str"))) {
+        Ok(s) => s,
+        Err(k) => return Some(format!("views-failed {}", k)),
+    };
+    let (head, pview) = views.split_once("|P=")?;
+    let pview: Vec<&str> = if pview.is_empty() { Vec::new() } else { pview.split(',').collect() };
+    if pview.len() != probes.len() {
+        return Some("views-failed probe-count".into());
+    }
+
+    // 2. every probe field's value, each in a fresh program
+    let mut pout = Vec::new();
+    for (p, pv) in probes.iter().zip(pview.iter()) {
+        let fsrc = format!("local o = {};\no['{}']", src, p);
+        let val = match short(&eval_source(fsrc.as_bytes(), &opts("json"))) {
+            Ok(s) => s.trim().to_string(),
+            Err(k) => k,
+        };
+        pout.push(format!("{}:{}", pv, val));
+    }
+
+    // 3. manifestation
+    let man = match short(&eval_source(src.as_bytes(), &opts("json"))) {
+        Ok(s) => canon_json(&s),
+        Err(k) => k,
+    };
+
+    Some(format!("{}|P={}|M={}", head, pout.join(","), man))
 }
